@@ -468,3 +468,34 @@
     ensures r is Ok, final(self).building is None, final(self).index_manager == old(self).index_manager,
         final(self).snapshots@ == (if old(self).snapshots@.len() > 1 { seq![old(self).snapshots@.last(), snapshot_range] } else { old(self).snapshots@.push(snapshot_range) }),
         exists|v: Vec<SnapshotRange>| v@ == final(self).snapshots@ && final(vx_log).s == old(vx_log).s.push(#[trigger] sent(old(self).index_manager.unwrap(), RaftIndexRequest::SaveSnapshots(v))),
+@@ FileStore::do_log_compaction@RaftStorage<ClientRequest,ClientResponse> effects send
+@@ FileStore::do_log_compaction@RaftStorage<ClientRequest,ClientResponse> replies send
+@@ FileStore::do_log_compaction@RaftStorage<ClientRequest,ClientResponse> subst
+    snapshot_id.to_string() => vx_u64_to_string(snapshot_id)
+@@ FileStore::do_log_compaction@RaftStorage<ClientRequest,ClientResponse> spec
+    // C01 (storage boundary, compaction): the apply manager is asked to build a snapshot; what it reports (header, file, id) is what the
+    // Raft core gets back — index and term of the header — and, for a NEW snapshot (id != 0), ONE pointer entry for (index, term, id) goes
+    // to the log manager; nothing else
+    ensures final(vx_replies).r.len() >= old(vx_replies).r.len() + 1,
+        r is Ok ==> (final(vx_replies).r[old(vx_replies).r.len() as int] matches ReplyVal::Apply(Ok(Ok(StateApplyResponse::Snapshot(header, path, snapshot_id))))
+            && r.unwrap().index == header.last_index && r.unwrap().term == header.last_term
+            && (snapshot_id == 0 ==> final(vx_log).s == old(vx_log).s.push(sent(self.apply_manager, StateApplyAsyncRequest::BuildSnapshot)))
+            && (snapshot_id != 0 ==> exists|rec: LogRecordDto| final(vx_log).s == old(vx_log).s.push(sent(self.apply_manager, StateApplyAsyncRequest::BuildSnapshot))
+                    .push(#[trigger] sent(self.log_manager, RaftLogManagerRequest::BuildSnapshotPointerLog(rec)))
+                && Some(rec) == record_of_entry(pointer_entry(header.last_index, header.last_term, u64_text(snapshot_id), r.unwrap().membership)))),
+@@ FileStore::do_log_compaction@RaftStorage<ClientRequest,ClientResponse> entry
+    broadcast use axiom_reply_val_apply;
+@@ FileStore::create_snapshot@RaftStorage<ClientRequest,ClientResponse> effects send
+@@ FileStore::create_snapshot@RaftStorage<ClientRequest,ClientResponse> replies send
+@@ FileStore::create_snapshot@RaftStorage<ClientRequest,ClientResponse> subst
+    snapshot_id.to_string() => vx_u64_to_string(snapshot_id)
+    .open(path.as_str()) => .open(&path)
+@@ FileStore::create_snapshot@RaftStorage<ClientRequest,ClientResponse> spec
+    // C08 (storage boundary): the file the Raft core fills with the leader's snapshot is NEW — it holds nothing, whatever a file of that
+    // name held before — and is named by the id the snapshot manager handed out; ONE NewSnapshotForLoad message
+    ensures final(vx_log).s == old(vx_log).s.push(sent(self.snapshot_manager, RaftSnapshotRequest::NewSnapshotForLoad)),   // @C08
+        r is Ok ==> r.unwrap().1.contents().len() == 0,   // @C08 @S26
+        r is Ok ==> (final(vx_replies).r.last() matches ReplyVal::Snapshot(Ok(Ok(RaftSnapshotResponse::NewSnapshotForLoad(path, snapshot_id))))
+            && r.unwrap().0@ == u64_text(snapshot_id)),   // @C08
+@@ FileStore::create_snapshot@RaftStorage<ClientRequest,ClientResponse> entry
+    broadcast use axiom_reply_val_snapshot, axiom_reply_new_snapshot_for_load;
